@@ -291,17 +291,20 @@ def n_within(tier='quick'):
 
 # ------------------------------------------------------------------------------------------------ C03: annotations
 
-def s_xref(tier='quick'):
+def s_xref(tier='quick', pfx='m'):
     """element ref= to a global element of ANOTHER namespace (imported file); the two namespace URIs are symbolic over
-    adversarial URIs; the start file's target namespace has no xmlns declaration of its own"""
+    adversarial URIs; the start file's target namespace has no xmlns declaration of its own. pfx: the prefix the start file
+    binds to the imported namespace (a user prefix may well begin with the letters xml)"""
     dom = ADV_URIS[:7] if tier == 'quick' else ADV_URIS
+    if pfx != 'm':
+        dom = dom[:3]
     ua = Selector('uri_a', dom)
     ub = Selector('uri_b', dom)
     remote = GEl('Remote', content=Seq([El('r', 'xs:string')]))
     sch_b = Schema(ub, [remote], prefixes={'m': ub})
-    person = CT('Person', Seq([El(ref='m:Remote'), El('name', 'xs:string')]), attrs=[Attr('id', 'xs:string', 'required')])
-    sch_a = Schema(ua, [person], prefixes={'m': ub}, imports=[(ub, 'b.xsd')])
-    sc = Scenario('S-xref', {'a.xsd': sch_a, 'b.xsd': sch_b}, 'a.xsd', [ua, ub])
+    person = CT('Person', Seq([El(ref=pfx + ':Remote'), El('name', 'xs:string')]), attrs=[Attr('id', 'xs:string', 'required')])
+    sch_a = Schema(ua, [person], prefixes={pfx: ub}, imports=[(ub, 'b.xsd')])
+    sc = Scenario('S-xref' + ('' if pfx == 'm' else '-prefix-' + pfx), {'a.xsd': sch_a, 'b.xsd': sch_b}, 'a.xsd', [ua, ub])
     return sc, Info(schemas={'a.xsd': sch_a, 'b.xsd': sch_b}, subjects=[('a.xsd', person)], anon=[('b.xsd', remote)], simple=[], bases={}, distinct=(ua, ub))
 
 
